@@ -358,6 +358,20 @@ def variant_key(pgpy, name):
     key = get(base)
     if var == 'old-format':
         key = pgpy.PGPKey.from_blob(old_format(bytes(key)))[0]
+    elif var == 'foreign-lengths':
+        # the same key as another producer may write it: every signature's subpacket lengths in the five-octet form
+        # (hashed area of odd-numbered signatures, unhashed area of even-numbered ones; neither is covered differently by the signature:
+        #  the hashed area is signed as received, so only packets whose signature was made over THESE octets may be touched there:
+        #  the unhashed area only)
+        from .c14 import World as _W14
+        out, n = b'', 0
+        for t, b in split_packets(bytes(key)):
+            pkt = bytes([0xc0 | t]) + (bytes([len(b)]) if len(b) < 192 else bytes([192 + ((len(b) - 192) >> 8), (len(b) - 192) & 0xff]) if len(b) < 8384 else b'\xff' + len(b).to_bytes(4, 'big')) + b
+            if t == 2:
+                n += 1
+                pkt = _W14.foreign_lengths(pkt, 2)          # serial % 4 == 2: the unhashed area
+            out += pkt
+        key = pgpy.PGPKey.from_blob(out)[0]
     elif var == 'kdf':
         blob, changed = nondefault_kdf_blob(key)
         assert changed, 'no ECDH key packet in ' + base
@@ -646,6 +660,18 @@ def run(ctx):
                               [(n, [rng.choice(STAGES) for _ in range(2)], True) for n in ('ed25519', 'ed25519b', 'p256', 'p384', 'p521', 'secp256k1')]):
             if n in names:
                 history(ctx, d, pgpy, n, plan, prot, kdf=True)
+        # a private key LOADED with non-minimal subpacket lengths in the unhashed areas of its signatures: twin / copies export them as received
+        for n in (['ed25519', 'p256'] if q else names):
+            if n in names:
+                with warnings.catch_warnings():
+                    warnings.simplefilter('ignore')
+                    o = out2(lambda: variant_key(pgpy, n + '/foreign-lengths'))
+                    if o[0] != 'ok':
+                        ctx.fail('twin', 'a key whose signatures use five-octet subpacket lengths cannot be loaded', {'op': 'twin', 'key': n + '/foreign-lengths', 'impl': repr(o)}); continue
+                    kf = o[1]
+                    check_twin(ctx, d, 'twin', kf, kf.pubkey, {'op': 'twin', 'key': n + '/foreign-lengths', 'stage': 'loaded'}, secrets_of(kf))
+                    c2 = copy.copy(kf)
+                    check_twin(ctx, d, 'twin', c2, c2.pubkey, {'op': 'twin', 'key': n + '/foreign-lengths', 'stage': 'copied'}, secrets_of(c2))
         # shapes PGPy's own key management never produces but other implementations do (and PGPy must carry over to the twin)
         for n, plan, prot in ([('ed25519', STAGES2 + ['uid'], True), ('rsa2048', ['legacy-uid', 'direct-third-party'], False),
                                ('p256', ['attr-multi', 'revoker-revokes'], False)] if q else
